@@ -514,27 +514,52 @@ func init() {
 		// returns is no longer consulted; nothing is demanded of it.)
 		if f := c.fn("evidence", "Pool.Update"); f != nil {
 			fk := funcKey(f)
-			scans := w.callsTo(f, "evidence#Pool.removeExpiredPendingEvidence")
+			scans := w.deepCallsTo(f, 2, "evidence#Pool.removeExpiredPendingEvidence")
 			c.Check(len(scans) == 1, fk+" :: scan for expired evidence found", w.pos(f.Pos()), "1", fmt.Sprintf("%d", len(scans)))
-			isScan := func(in ssa.Instruction) bool {
-				call, ok := in.(ssa.CallInstruction)
-				return ok && w.isCall(call, "evidence#Pool.removeExpiredPendingEvidence")
-			}
-			// edges on which the pool is known to be empty need no scan
-			empty := map[Edge]bool{}
-			for _, ea := range condEdges(f) {
-				if ea.A.Kind != "cmp" {
-					continue
-				}
-				x, y := w.expr(ea.A.X), w.expr(ea.A.Y)
+			// emptyEdges: edges of g on which the pool is known to be empty (no scan needed there)
+			emptyEdges := func(g *ssa.Function) map[Edge]bool {
+				empty := map[Edge]bool{}
 				isSize := func(s string) bool { return regexp.MustCompile(`^\w+\.Size\(\)$`).MatchString(s) }
-				if (isSize(x) && y == "0" && (ea.A.Op == token.LEQ || ea.A.Op == token.EQL)) || (isSize(y) && x == "0" && (ea.A.Op == token.GEQ || ea.A.Op == token.EQL)) {
-					empty[ea.E] = true
+				for _, ea := range condEdges(g) {
+					if ea.A.Kind != "cmp" {
+						continue
+					}
+					x, y := w.expr(ea.A.X), w.expr(ea.A.Y)
+					if (isSize(x) && y == "0" && (ea.A.Op == token.LEQ || ea.A.Op == token.EQL)) || (isSize(y) && x == "0" && (ea.A.Op == token.GEQ || ea.A.Op == token.EQL)) {
+						empty[ea.E] = true
+					}
 				}
+				return empty
 			}
+			// scansUnlessEmpty: every way through g (from its entry) either runs the scan, or calls a helper
+			// of which the same holds, or crosses an edge on which the pool is empty
+			var isScan func(in ssa.Instruction, d int) bool
+			scansUnlessEmpty := func(g *ssa.Function, d int) bool {
+				if g == nil || g.Blocks == nil || d > 2 {
+					return false
+				}
+				em := emptyEdges(g)
+				qq := &pathQ{blocked: func(e Edge) bool { return em[e] }, kill: func(in ssa.Instruction) bool { return isScan(in, d+1) }, target: isReturn}
+				hit, _ := qq.reach(g.Blocks[0], 0)
+				return hit == nil
+			}
+			isScan = func(in ssa.Instruction, d int) bool {
+				call, ok := in.(ssa.CallInstruction)
+				if !ok {
+					return false
+				}
+				if w.isCall(call, "evidence#Pool.removeExpiredPendingEvidence") {
+					return true
+				}
+				if h := staticCallee(call); h != nil && h != f && pkgPathOf(h) == pkgPathOf(f) && isNewFunc(h) {
+					return scansUnlessEmpty(h, d)
+				}
+				return false
+			}
+			empty := emptyEdges(f)
 			// start after the committed evidence was marked (the last step before pruning)
 			for _, mark := range w.callsTo(f, "evidence#Pool.markEvidenceAsCommitted") {
-				qq := &pathQ{blocked: func(e Edge) bool { return empty[e] }, kill: isScan, target: isReturn}
+				qq := &pathQ{blocked: func(e Edge) bool { return empty[e] }, kill: func(in ssa.Instruction) bool { return isScan(in, 0) }, target: isReturn}
 				mi := 0
 				for i, in := range mark.Block().Instrs {
 					if in == ssa.Instruction(mark) {
@@ -611,22 +636,26 @@ func init() {
 				continue
 			}
 			n := 0
-			for _, spec := range sites {
-				for _, call := range w.callsTo(f, spec) {
-					n++
-					held := w.computeLocks(call.Parent()).heldAt(call)
-					all = append(all, site{f, call, held})
-					set := map[string]bool{}
-					for _, h := range held {
-						set[h] = true
-					}
-					if common == nil {
-						common = set
-					} else {
-						for k := range common {
-							if !set[k] {
-								delete(common, k)
-							}
+			// sites in the entry point itself or in helpers it calls (a predicate or a per-item helper
+			// carved out of it): what counts is what is held where the entry point is left for the helper,
+			// plus what the helper takes itself
+			for _, dc := range w.deepCallsTo(f, 2, sites...) {
+				n++
+				held := w.computeLocks(f).heldAt(dc.site)
+				if dc.call.Parent() != f {
+					held = append(held, w.computeLocks(dc.call.Parent()).heldAt(dc.call)...)
+				}
+				all = append(all, site{f, dc.site, held})
+				set := map[string]bool{}
+				for _, h := range held {
+					set[h] = true
+				}
+				if common == nil {
+					common = set
+				} else {
+					for k := range common {
+						if !set[k] {
+							delete(common, k)
 						}
 					}
 				}
